@@ -303,6 +303,17 @@ def gen():
     if not m:
         raise GenError("node.rs: SAMPLING_TIMEOUT not found")
     defN("SAMPLING_TIMEOUT_MS", int(m.group(1)))
+    # the listener loops of node.rs (C09 termination): every blocking wait is bounded by
+    # SAMPLING_TIMEOUT and is the first action of a loop whose condition re-reads the stop flag
+    node_code = node.split("#[cfg(test)]")[0]
+    nlines = [l for l in node_code.split("\n") if l.strip() and not l.strip().startswith("#[cfg(message_io_verif)]") and "crate::verif::" not in l]
+    waits = [i for i, l in enumerate(nlines) if "process_poll_event(" in l or re.search(r"signal_receiver\s*\.\s*receive", l)]
+    bounded = bool(waits) and all(("process_poll_event(Some(*SAMPLING_TIMEOUT)" in nlines[i]) or ("receive_timeout(*SAMPLING_TIMEOUT)" in nlines[i]) for i in waits)
+    heads = bool(waits) and all(re.search(r"while\s+(self\.)?handler\.is_running\(\)\s*\{|while\s+cache_running\.load\(", nlines[i - 1]) for i in waits)
+    defB("NODE_WAITS_BOUNDED_BY_SAMPLING_TIMEOUT", bounded, "every process_poll_event / signal receive of node.rs waits at most SAMPLING_TIMEOUT")
+    defB("NODE_WAITS_AT_LOOP_HEADS_THAT_READ_THE_FLAG", heads, "each such wait is the first action of a `while is_running()` / `while cache_running` loop")
+    stop_body = fn_body(node_code, r"pub fn stop\(&self\)\s*\{", "node.rs::stop")
+    defB("NODE_STOP_CLEARS_RUNNING", bool(re.search(r"running\.store\(\s*false", stop_body)), "NodeHandler::stop stores false into the running flag")
     emit("")
 
     # ---- transport.rs tables ----------------------------------------------------------------
